@@ -16,18 +16,18 @@ plain byte arithmetic only, nothing imported from the toolkit.
 
  MOD (4 bits, includes the TSC-set bits) and burst length:
    00SS GMSK 148 | 010S 8-PSK 444 | 0110 GMSK access burst 148 | 0111 reserved
-   100S 16QAM 592 | 101S 32QAM 740 | 110S AQPSK 296 | 111S not decided by the description
-   (the TSC set of every modulation but GMSK is one bit, which makes 111S unassigned; a reader
-   that takes the two leading bits `11` for AQPSK gives 296.  OPEN_CODES lists them; callers
-   accept rejection or the 296 reading.)
+   100S 16QAM 592 | 101S 32QAM 740 | 11SS AQPSK 296
+   (AQPSK carries two TSC-set bits like GMSK: the TRXD description reads "1 1 X X  AQPSK, 4 TSC
+   sets" and the MTS class documents the whole 11xx branch as AQPSK.  Only 0111 is reserved.
+   OPEN_CODES is kept for callers and is empty.)
 
 Reserved bits are sent as zero and ignored on receipt.
 """
 
 GMSK = 148
-OPEN_CODES = (14, 15)
+OPEN_CODES = ()
 RESERVED_CODES = (7,)
-LEGAL_CODES = (0, 1, 2, 3, 4, 5, 6, 8, 9, 10, 11, 12, 13)
+LEGAL_CODES = (0, 1, 2, 3, 4, 5, 6, 8, 9, 10, 11, 12, 13, 14, 15)
 
 
 class RefError(Exception):
@@ -50,13 +50,13 @@ def burst_len(mod):
         return 4 * GMSK
     if mod in (10, 11):
         return 5 * GMSK
-    return 2 * GMSK          # 12, 13 (and, if accepted at all, 14, 15)
+    return 2 * GMSK          # 12..15
 
 
 def mod_name(mod):
     return {0: "GMSK", 1: "GMSK", 2: "GMSK", 3: "GMSK", 4: "8PSK", 5: "8PSK", 6: "GMSK_AB", 7: "reserved",
             8: "16QAM", 9: "16QAM", 10: "32QAM", 11: "32QAM", 12: "AQPSK", 13: "AQPSK",
-            14: "open", 15: "open"}[mod]
+            14: "AQPSK", 15: "AQPSK"}[mod]
 
 
 def _s16(v):
